@@ -28,6 +28,7 @@ import (
 	"strconv"
 	"strings"
 	"sync"
+	"sync/atomic"
 	"testing"
 
 	"github.com/mattn/anko/ast"
@@ -51,9 +52,15 @@ var templates = []func(u string) string{
 	func(u string) string { return "x" + u + " = hostA(3) + 1\nrec(x" + u + ")" },
 	func(u string) string { return "func f" + u + "(a) { return a * 7 + base }\nrec(f" + u + "(2))" },
 	func(u string) string { return "rec(func(a) { return a + base }(4))" },
-	func(u string) string { return "func d" + u + "() {\ndefer rec(1)\ndefer hostA(2)\nreturn 5\n}\nrec(d" + u + "())" },
-	func(u string) string { return "i" + u + " = base\ni" + u + "++\ni" + u + "--\ni" + u + "++\nrec(i" + u + ")" },
-	func(u string) string { return "rec(\"s\")\nrec(1.5)\nrec(true)\nrec(nil)\nrec([1, \"a\", 2.5])\nrec({\"k\": 1}[\"k\"])" },
+	func(u string) string {
+		return "func d" + u + "() {\ndefer rec(1)\ndefer hostA(2)\nreturn 5\n}\nrec(d" + u + "())"
+	},
+	func(u string) string {
+		return "i" + u + " = base\ni" + u + "++\ni" + u + "--\ni" + u + "++\nrec(i" + u + ")"
+	},
+	func(u string) string {
+		return "rec(\"s\")\nrec(1.5)\nrec(true)\nrec(nil)\nrec([1, \"a\", 2.5])\nrec({\"k\": 1}[\"k\"])"
+	},
 	func(u string) string {
 		return "rec(4095 + 0)\nrec(4094 + 1)\nrec(4095 + 1)\nrec(-1 + 0)\nrec(0 - 1)\nrec(-2 + 1)\nrec(-2 + 0)\na" + u + " = 4095\na" + u + "++\nrec(a" + u + ")\nb" + u + " = 0\nb" + u + "--\nrec(b" + u + ")"
 	},
@@ -67,25 +74,59 @@ var templates = []func(u string) string{
 		return "s" + u + " = import(\"strings\")\nrec(s" + u + ".ToUpper(\"ab\"))\nif ow { s" + u + ".ToUpper = hostUp }\nrec(s" + u + ".ToUpper(\"ab\"))\nt" + u + " = import(\"strings\")\nrec(t" + u + ".ToUpper(\"cd\"))\nif ow { import(\"strings\").ToLower = hostUp }\nrec(import(\"strings\").ToLower(\"EF\"))"
 	},
 	func(u string) string { return "try { throw \"e\" + base } catch e" + u + " { rec(e" + u + ") }" },
-	func(u string) string { return "t" + u + " = 0\nfor j" + u + " = 0; j" + u + " < 3; j" + u + "++ { t" + u + " += j" + u + " * base }\nrec(t" + u + ")" },
+	func(u string) string {
+		return "t" + u + " = 0\nfor j" + u + " = 0; j" + u + " < 3; j" + u + "++ { t" + u + " += j" + u + " * base }\nrec(t" + u + ")"
+	},
 	func(u string) string { return "for v" + u + " in [1, 2, 3] { rec(v" + u + " + base) }" },
-	func(u string) string { return "rec(base > 15 ? \"big\" : \"small\")\nrec(nil ?? base)\nswitch base {\ncase 10:\nrec(\"ten\")\ncase 20:\nrec(\"twenty\")\ndefault:\nrec(\"other\")\n}" },
-	func(u string) string { return "l" + u + " = [1, 2, 3]\nl" + u + "[0] = base\nrec(l" + u + "[0:2])\nl" + u + " += 4\nrec(len(l" + u + "))" },
-	func(u string) string { return "var q" + u + " = base\nrec(q" + u + ")\nm" + u + ", n" + u + " = 1, base\nrec(n" + u + ")" },
-	func(u string) string { return "rec(\"x\" + base)\nrec(base * 2.5)\nrec(base % 7)\nrec(-base)\nrec(!ow)" },
+	func(u string) string {
+		return "rec(base > 15 ? \"big\" : \"small\")\nrec(nil ?? base)\nswitch base {\ncase 10:\nrec(\"ten\")\ncase 20:\nrec(\"twenty\")\ndefault:\nrec(\"other\")\n}"
+	},
+	func(u string) string {
+		return "l" + u + " = [1, 2, 3]\nl" + u + "[0] = base\nrec(l" + u + "[0:2])\nl" + u + " += 4\nrec(len(l" + u + "))"
+	},
+	func(u string) string {
+		return "var q" + u + " = base\nrec(q" + u + ")\nm" + u + ", n" + u + " = 1, base\nrec(n" + u + ")"
+	},
+	func(u string) string {
+		return "rec(\"x\" + base)\nrec(base * 2.5)\nrec(base % 7)\nrec(-base)\nrec(!ow)"
+	},
 	func(u string) string {
 		return "mm" + u + " = make(map[string]int64)\nmm" + u + "[\"a\"] = base\nrec(mm" + u + "[\"a\"])\nsl" + u + " = make([]int64, 2)\nsl" + u + "[1] = base\nrec(sl" + u + ")"
 	},
-	func(u string) string { return "func r" + u + "(n) { if n <= 0 { return base }; return r" + u + "(n - 1) + 1 }\nrec(r" + u + "(3))" },
-	func(u string) string { return "func v" + u + "(a, b...) { return len(b) + a }\nrec(v" + u + "(base, 1, 2))\nrec(v" + u + "([base, 5]...))" },
-	func(u string) string { return "func g" + u + "(a, b, c, d, e) { return a + e }\nrec(g" + u + "(base, 2, 3, 4, 5))" },
-	func(u string) string { return "p" + u + " = base\nw" + u + " = &p" + u + "\n*w" + u + " = 3\nrec(*w" + u + ")" },
+	func(u string) string {
+		return "func r" + u + "(n) { if n <= 0 { return base }; return r" + u + "(n - 1) + 1 }\nrec(r" + u + "(3))"
+	},
+	func(u string) string {
+		return "func v" + u + "(a, b...) { return len(b) + a }\nrec(v" + u + "(base, 1, 2))\nfunc vv" + u + "(b...) { return b[0] + len(b) }\nrec(vv" + u + "([base, 5]...))"
+	},
+	func(u string) string {
+		return "func g" + u + "(a, b, c, d, e) { return a + e }\nrec(g" + u + "(base, 2, 3, 4, 5))"
+	},
+	func(u string) string {
+		return "p" + u + " = base\nw" + u + " = &p" + u + "\n*w" + u + " = 3\nrec(*w" + u + ")"
+	},
 	func(u string) string { return "rec(hostA(hostA(1)))\nrec(1 in [1, base])\nrec(len(\"abc\") + base)" },
-	func(u string) string { return "if base == 10 { rec(\"a\") } else if base == 20 { rec(\"b\") } else { rec(\"c\") }" },
+	func(u string) string {
+		return "if base == 10 { rec(\"a\") } else if base == 20 { rec(\"b\") } else { rec(\"c\") }"
+	},
 	func(u string) string {
 		return "try {\nfunc() { defer rec(\"deferred\"); throw \"inner\" + base }()\n} catch e" + u + " { rec(e" + u + ") } finally { rec(\"fin\") }"
 	},
-	func(u string) string { return "k" + u + " = 0\nfor { k" + u + "++; if k" + u + " > 2 { break }; if k" + u + " == 1 { continue }; rec(k" + u + ") }" },
+	func(u string) string {
+		return "k" + u + " = 0\nfor { k" + u + "++; if k" + u + " > 2 { break }; if k" + u + " == 1 { continue }; rec(k" + u + ") }"
+	},
+	func(u string) string {
+		return "g" + u + " = [[1, 2], [3, 4]]\ng" + u + "[0][0] = g" + u + "[0][0] + base\ng" + u + "[1] += 5\nrec(g" + u + ")\nrec([[1, 2], [3, 4]][0][0])"
+	},
+	func(u string) string {
+		return "mm" + u + " = {\"a\": {\"b\": 1}, \"c\": [1, 2]}\nmm" + u + "[\"a\"][\"b\"] = base\nmm" + u + "[\"c\"][1] = base\nrec(mm" + u + "[\"a\"][\"b\"] + mm" + u + "[\"c\"][1])\nrec({\"a\": {\"b\": 1}}[\"a\"][\"b\"])"
+	},
+	func(u string) string {
+		return "func lit" + u + "() { return [[0, 0], [\"x\"]] }\nq" + u + " = lit" + u + "()\nq" + u + "[0][1] = base\nq" + u + "[1][0] = \"y\" + base\nrec(lit" + u + "())\nrec(q" + u + ")"
+	},
+	func(u string) string {
+		return "recid(envid)\nrecid(import(\"strings\").envid)\nrecid(import(\"sort\").envid + 0)\nmodule Q" + u + " { func id() { return envid } }\nrecid(Q" + u + ".id())\nrecid(func() { return envid }())"
+	},
 	func(u string) string {
 		return "n" + u + " = 6 * 7\nw" + u + " = &n" + u + "\n*w" + u + " = base\nrec(n" + u + ")\nrec(6 * 7)\nrec(*w" + u + ")"
 	},
@@ -221,11 +262,14 @@ func dumpTree(n interface{}) string {
 
 // ---------------------------------------------------------------------------
 
+var envCounter atomic.Int64
+
 type runOut struct {
-	val    string
-	err    string
-	trace  []string
-	binds  string
+	cross   string
+	val     string
+	err     string
+	trace   []string
+	binds   string
 	paniced string
 }
 
@@ -261,6 +305,17 @@ func mkEnv(i int, out *runOut, mu *sync.Mutex) *env.Env {
 	})
 	e.Define("hostA", func(x int64) int64 { simrt.Yield("host"); return x*100 + int64(i) })
 	e.Define("hostUp", func(s string) string { return "up" + strconv.Itoa(i) + ":" + s })
+	// a process-unique identity per environment: an absolute isolation probe
+	// (comparing with a solo run cannot see a leak that is the same in every run)
+	id := 100000 + envCounter.Add(1)
+	e.Define("envid", id)
+	e.Define("recid", func(v interface{}) {
+		if v != interface{}(id) {
+			mu.Lock()
+			out.cross = fmt.Sprintf("environment %d read %#v where its own binding envid=%d was expected", i, v, id)
+			mu.Unlock()
+		}
+	})
 	return e
 }
 
@@ -269,6 +324,9 @@ func bindings(e *env.Env) string {
 	sort.Strings(syms)
 	var parts []string
 	for _, s := range syms {
+		if s == "envid" {
+			continue
+		}
 		v, _ := e.Get(s)
 		parts = append(parts, s+"="+render(v))
 	}
@@ -296,6 +354,9 @@ func execute(stmt ast.Stmt, i int, ctx context.Context) *runOut {
 }
 
 func (a *runOut) diff(b *runOut) string {
+	if a.cross != "" {
+		return "cross-talk between environments: " + a.cross
+	}
 	if a.paniced != b.paniced {
 		return fmt.Sprintf("panic %q vs %q", a.paniced, b.paniced)
 	}
@@ -434,6 +495,18 @@ func (Prop) Run(t *testing.T, c *harness.Case, verbose bool) *harness.Result {
 		solo[i] = execute(st, i, context.Background())
 		if solo[i].paniced != "" {
 			return fail("panic", "solo run panicked: "+solo[i].paniced)
+		}
+		if solo[i].cross != "" {
+			return fail("cross-talk", "even a solo run observed another environment's binding: "+solo[i].cross)
+		}
+		// absolute expectations: every template is written to succeed, the script ends with `base + 1`
+		wantErr, wantVal := "", render(int64(10*(i+1)+1))
+		if w.ErrTail {
+			wantErr, wantVal = "undefined symbol 'undefinedName'", solo[i].val
+		}
+		if solo[i].err != wantErr || solo[i].val != wantVal {
+			return fail("solo-differs-from-specification", fmt.Sprintf("solo run in environment %d returned value %s error %q; the program is written to return %s, error %q (trace: %s)",
+				i, solo[i].val, solo[i].err, wantVal, wantErr, strings.Join(solo[i].trace, " | ")))
 		}
 	}
 	if d := dumpTree(shared); d != dump0 {
